@@ -103,6 +103,24 @@ def scenarios(tier, rng):
                                            {"op": "wait"}, {"op": "list", "dir": "@A"}]},
                                   {"ops": [{"op": "list", "dir": "@A"}, restore_op(True), {"op": "solve", "k": BIG},
                                            {"op": "wait"}, {"op": "list", "dir": "@A"}]}]))
+    # a backup copy of the directory taken at rest while the original run carries on: restore(backup) must return what
+    # the BACKUP holds (latest and explicit step), although the configuration inside names the original directory
+    for kind, pname in (("VI", "forest"), ("RVI", "forest"), ("PI", "de_moor")):
+        pspec, full = P[pname]
+        for step in (None, 3):
+            out.append(base_scenario(f"{kind}-{pname}-restore-from-backup-copy-step{step}", kind, pname, pspec, full, 1, 2, False,
+                                     [{"ops": [{"op": "new"}, {"op": "solve", "k": 4}, {"op": "wait"}, {"op": "list", "dir": "@A"},
+                                               {"op": "copy", "src": "@A", "dst": "@B"}, {"op": "list", "dir": "@B"},
+                                               {"op": "solve", "k": 5}, {"op": "wait"}, {"op": "list", "dir": "@A"}]},
+                                      {"ops": [{"op": "list", "dir": "@B"}, dict(restore_op(full, **({"step": step} if step else {})), dir="@B")]}]))
+    # load_checkpoint() on a solver object that is already in use: roll back to an earlier step, then run to convergence
+    # (any per-object state derived from the iteration count must follow the loaded step)
+    for kind, pname in (("PVI", "forest12"), ("PVI", "tab_ring"), ("RVI", "forest"), ("PI", "tabular")):
+        pspec, full = P[pname]
+        out.append(base_scenario(f"{kind}-{pname}-rollback-on-the-same-object", kind, pname, pspec, full, 1, 12, False,
+                                 [{"ops": [{"op": "new"}, {"op": "solve", "k": 9}, {"op": "wait"}, {"op": "list", "dir": "@A"},
+                                           {"op": "load_same", "dir": "@A", "step": 1 if kind == "PI" else 4}, {"op": "solve", "k": BIG},
+                                           {"op": "wait"}]}]))
     # error paths
     pspec, full = P["tabular"]
     out.append(base_scenario("VI-tabular-restore-without-config", "VI", "tabular", pspec, False, 1, 2, False,
